@@ -259,7 +259,7 @@ fn run_amplifiers(cx: &mut Ctx, idx: &mut u64) -> bool {
             // (n, ops of open, bytes of open, cpu = max(open, costliest later call), min of 2 sweeps)
             let mut steps: Vec<(u64, u64, u64, u64)> = Vec::new();
             for d in 0..4 {
-                let target = base << d;
+                let target = (base * crate::hostile::amplifier_scale(fam)) << d;
                 let id = format!("amp:{}:{}", fam, target);
                 if !cx.args.want(&id) && cx.args.only.is_some() {
                     continue;
